@@ -143,11 +143,17 @@ pub fn record(cases: &str, table: &str, seed: u64, n: usize, out: &str) {
     t.finish();
 }
 
+/// the same covariance structure at three scales (L times 1, 2^-22, 2^14): sampling must not contain an absolute jitter / floor
 fn mvn_event(t: &mut TraceOut, c: &Value, normal_row: &Value, seed: u64, n: usize) {
+    for (k, e) in [0i32, -22, 14].iter().enumerate() { mvn_event_scaled(t, c, normal_row, seed, if k == 0 { n } else { n.min(80000) }, *e); }
+}
+fn mvn_event_scaled(t: &mut TraceOut, c: &Value, normal_row: &Value, seed: u64, n: usize, scale_log2: i32) {
     let d = c["d"].as_u64().unwrap() as usize;
     let mu = f64s(&c["mu"]);
-    let sigma: Vec<f64> = c["sigma"].as_array().unwrap().iter().flat_map(|r| f64s(r)).collect();
-    let l: Vec<Vec<f64>> = c["L"].as_array().unwrap().iter().map(f64s).collect();
+    let f = 2f64.powi(scale_log2);
+    let sigma: Vec<f64> = c["sigma"].as_array().unwrap().iter().flat_map(|r| f64s(r)).map(|v| v * f * f).collect();
+    let l: Vec<Vec<f64>> = c["L"].as_array().unwrap().iter().map(|r| f64s(r).iter().map(|v| v * f).collect()).collect();
+    let reg = if scale_log2 == 0 { format!("d{}", d) } else if scale_log2 < 0 { format!("d{} tiny-covariance", d) } else { format!("d{} huge-covariance", d) };
     let pts: Vec<(f64, f64)> = normal_row["pts"].as_array().unwrap().iter().map(|p| (p["xn"].as_i64().unwrap() as f64 / p["xd"].as_i64().unwrap() as f64, p["cdf"].as_str().unwrap().parse::<f64>().unwrap())).collect();
     let n = n / 2;
     let s = seed.wrapping_mul(40503).wrapping_add(d as u64);
@@ -177,9 +183,9 @@ fn mvn_event(t: &mut TraceOut, c: &Value, normal_row: &Value, seed: u64, n: usiz
     }, 60);
     let nf: Vec<i64> = (0..d + 2).flat_map(|_| pts.iter().map(|(_, f)| (f * n as f64).round() as i64)).collect();
     match res {
-        Ok(Some((shape_ok, finite, repro_ok, cnt))) => t.emit(json!({"kind": "MVN", "p": [d], "regime": format!("d{}", d), "n": n, "seed": s, "out": "ok", "count_ok": shape_ok, "shape_ok": shape_ok,
+        Ok(Some((shape_ok, finite, repro_ok, cnt))) => t.emit(json!({"kind": "MVN", "p": [d], "regime": reg, "n": n, "seed": s, "out": "ok", "count_ok": shape_ok, "shape_ok": shape_ok,
             "support_ok": finite, "integer_ok": true, "repro_ok": repro_ok, "cnt": cnt, "nF": nf})),
-        other => t.emit(json!({"kind": "MVN", "p": [d], "regime": format!("d{}", d), "n": n, "seed": s, "out": if other.is_err() { "timeout" } else { "panic" }, "count_ok": false, "shape_ok": false,
+        other => t.emit(json!({"kind": "MVN", "p": [d], "regime": reg, "n": n, "seed": s, "out": if other.is_err() { "timeout" } else { "panic" }, "count_ok": false, "shape_ok": false,
             "support_ok": false, "integer_ok": false, "repro_ok": false, "cnt": [], "nF": []})),
     }
 }
